@@ -54,7 +54,9 @@ CLAIMS = {
  "C12": ("PARTIAL. Theorems about the literal decoders (unquote_string / unquote_bytes transcribed): for every string of scalar values, both "
          "one-quote styles and every per-character choice among verbatim, simple escape, \\x, \\X, octal, \\u and \\U spellings the literal decodes to "
          "exactly that string (bytes: \\x/\\X/octal are single bytes, everything else its UTF-8); raw one-quote literals are verbatim; the escape "
-         "table; general lemmas for the numeric escapes; invalid escapes reject. The triple-quoted forms are not yet covered by a theorem. "
+         "table; general lemmas for the numeric escapes; invalid escapes reject; the same for the triple-quoted forms (the same bodies between three-quote "
+         "delimiters; raw triple-quoted literals verbatim for every body). Partial in this: the theorems are about decoding a token - that the lexer takes "
+         "each spelling as one token is the correspondence run. "
          "The run checks, on the implementation, that each literal denotes the intended characters for every escape in every style and for random "
          "strings in all 16 styles, and compares with the model. Known finding K01: raw triple-quoted literals containing U+0000/U+10FFFF are "
          "rejected (ANTLR runtime wildcard)."),
